@@ -1328,7 +1328,7 @@ theorem encodeUE_evenTail (t : Str) :
         omega
       · obtain ⟨init, z, he, hz⟩ := encChar_last c hc
         rw [he, List.reverse_append]
-        simp [List.takeWhile, hz]
+        simp [hz]
   have := key t.reverse
   simpa using this
 
@@ -1772,5 +1772,350 @@ theorem setValue_idem (k : StrClass) (hk : k ≠ .normalized) (v : Str) : k.setV
   | surrounded => exact surroundSV_idem v
   | spaceRight => exact spaceRightSV_idem v
   | normalized => exact absurd rfl hk
+
+
+
+
+/-! ### names: escape / unescape -/
+
+/-- escape one character `d` with a backslash -/
+def escD (d : Char) (c : Char) : Str := if c = d then ['\\', d] else [c]
+
+theorem escNameChar_eq (c : Char) : escNameChar c = (escD ':' c).flatMap (escD '.') := by
+  unfold escNameChar escD
+  by_cases h1 : c = ':'
+  · subst h1; decide
+  · by_cases h2 : c = '.'
+    · subst h2; decide
+    · simp [h1, h2]
+
+theorem escapeName_eq (n : Str) : escapeName n = ((encodeUE n).flatMap (escD ':')).flatMap (escD '.') := by
+  unfold escapeName
+  rw [List.flatMap_assoc]
+  congr 1
+  funext c
+  exact escNameChar_eq c
+
+/-- every backslash is followed by a character that is not in `bad`, and that character is skipped -/
+def Esc (bad : Char → Bool) : Str → Prop
+  | [] => True
+  | [x] => x ≠ '\\'
+  | x :: y :: rest => if x = '\\' then (bad y = false ∧ Esc bad rest) else Esc bad (y :: rest)
+
+theorem replace2_cons_ne (d x : Char) (rest : Str) (hx : x ≠ '\\') :
+    replace2 '\\' d d (x :: rest) = x :: replace2 '\\' d d rest := by
+  cases rest with
+  | nil => simp [replace2]
+  | cons y r => simp [replace2, hx]
+
+theorem replace2_bs (d : Char) (rest : Str) (h : rest.head? ≠ some d) :
+    replace2 '\\' d d ('\\' :: rest) = '\\' :: replace2 '\\' d d rest := by
+  cases rest with
+  | nil => simp [replace2]
+  | cons y r =>
+    have : y ≠ d := by intro e; apply h; simp [e]
+    simp [replace2, this]
+
+theorem head_flatMap_escD (d : Char) (hd : d ≠ '\\') (s : Str) : (s.flatMap (escD d)).head? ≠ some d := by
+  cases s with
+  | nil => simp
+  | cons c cs =>
+    simp only [List.flatMap_cons, escD]
+    split
+    · simp; exact fun e => hd e.symm
+    · rename_i h; simp; exact h
+
+theorem replace2_escD (d : Char) (hd : d ≠ '\\') :
+    ∀ e : Str, Esc (fun y => y = d) e → replace2 '\\' d d (e.flatMap (escD d)) = e
+  | [], _ => rfl
+  | [x], h => by
+    have hx : x ≠ '\\' := h
+    simp only [List.flatMap_cons, List.flatMap_nil, List.append_nil, escD]
+    split
+    · rename_i hxd; subst hxd; simp [replace2]
+    · simp [replace2]
+  | x :: y :: rest, h => by
+    simp only [Esc] at h
+    by_cases hx : x = '\\'
+    · subst hx
+      simp only [if_true] at h
+      have hy : y ≠ d := by simpa using h.1
+      have hbd : ¬ ('\\' = d) := fun e => hd e.symm
+      simp only [List.flatMap_cons, escD, if_neg hbd, if_neg hy, List.cons_append, List.nil_append]
+      have ihr := replace2_escD d hd rest h.2
+      rw [replace2_bs d _ (by simp; exact fun e => hy e)]
+      by_cases hyb : y = '\\'
+      · subst hyb
+        rw [replace2_bs d _ (head_flatMap_escD d hd rest), ihr]
+      · rw [replace2_cons_ne d y _ hyb, ihr]
+    · simp only [if_neg hx] at h
+      have ihr := replace2_escD d hd (y :: rest) h
+      simp only [List.flatMap_cons] at ihr ⊢
+      by_cases hxd : x = d
+      · subst hxd
+        have e1 : escD x x = ['\\', x] := by simp [escD]
+        rw [e1]
+        simp only [List.cons_append, List.nil_append]
+        have : replace2 '\\' x x ('\\' :: x :: (escD x y ++ List.flatMap (escD x) rest)) =
+            x :: replace2 '\\' x x (escD x y ++ List.flatMap (escD x) rest) := by
+          simp [replace2]
+        rw [this, ihr]
+      · have e1 : escD d x = [x] := by simp [escD, hxd]
+        rw [e1]
+        simp only [List.cons_append, List.nil_append]
+        rw [replace2_cons_ne d x _ hx, ihr]
+
+
+
+theorem Esc_cons_ne (bad : Char → Bool) (x : Char) (rest : Str) (hx : x ≠ '\\') (h : Esc bad rest) :
+    Esc bad (x :: rest) := by
+  cases rest with
+  | nil => exact hx
+  | cons y r => simp only [Esc, if_neg hx]; exact h
+
+theorem Esc_bs (bad : Char → Bool) (y : Char) (rest : Str) (hy : bad y = false) (h : Esc bad rest) :
+    Esc bad ('\\' :: y :: rest) := by
+  simp only [Esc, if_true]; exact ⟨hy, h⟩
+
+theorem Esc_append_plain (bad : Char → Bool) (w rest : Str) (hw : ∀ x ∈ w, x ≠ '\\') (h : Esc bad rest) :
+    Esc bad (w ++ rest) := by
+  induction w with
+  | nil => exact h
+  | cons x xs ih =>
+    exact Esc_cons_ne bad x _ (hw x (by simp)) (ih (fun y hy => hw y (by simp [hy])))
+
+def bad2 (y : Char) : Bool := y = '.' || y = ':'
+
+theorem hexDigit_ne_bs : ∀ k, k < 16 → hexDigit k ≠ '\\' := by decide
+
+theorem Esc_hexEscape (n : Nat) (rest : Str) (h : Esc bad2 rest) : Esc bad2 (hexEscape n ++ rest) := by
+  unfold hexEscape
+  split
+  · simp only [List.cons_append]
+    refine Esc_bs bad2 'x' _ (by decide) (Esc_append_plain bad2 _ rest ?_ h)
+    intro x hx; simp [hex2] at hx
+    rcases hx with rfl | rfl <;> exact hexDigit_ne_bs _ (by omega)
+  · split
+    · simp only [List.cons_append]
+      refine Esc_bs bad2 'u' _ (by decide) (Esc_append_plain bad2 _ rest ?_ h)
+      intro x hx; simp [hex4] at hx
+      rcases hx with rfl | rfl | rfl | rfl <;> exact hexDigit_ne_bs _ (by omega)
+    · simp only [List.cons_append]
+      refine Esc_bs bad2 'U' _ (by decide) (Esc_append_plain bad2 _ rest ?_ h)
+      intro x hx; simp [hex8] at hx
+      rcases hx with rfl | rfl | rfl | rfl | rfl | rfl | rfl | rfl <;> exact hexDigit_ne_bs _ (by omega)
+
+theorem Esc_encChar (c : Char) (rest : Str) (h : Esc bad2 rest) : Esc bad2 (encChar c ++ rest) := by
+  unfold encChar
+  simp only
+  split
+  · exact Esc_bs bad2 '\\' _ (by decide) h
+  · split
+    · exact Esc_bs bad2 't' _ (by decide) h
+    · split
+      · exact Esc_bs bad2 'n' _ (by decide) h
+      · split
+        · exact Esc_bs bad2 'r' _ (by decide) h
+        · split
+          · exact Esc_hexEscape _ rest h
+          · rename_i h1 _ _ _ _
+            exact Esc_cons_ne bad2 c rest h1 h
+
+theorem Esc_encodeUE (n : Str) : Esc bad2 (encodeUE n) := by
+  induction n with
+  | nil => exact True.intro
+  | cons c cs ih =>
+    have : encodeUE (c :: cs) = encChar c ++ encodeUE cs := by simp [encodeUE]
+    rw [this]; exact Esc_encChar c _ ih
+
+theorem Esc_mono (bad bad' : Char → Bool) (hb : ∀ y, bad y = false → bad' y = false) :
+    ∀ e : Str, Esc bad e → Esc bad' e
+  | [], _ => True.intro
+  | [_], h => h
+  | x :: y :: rest, h => by
+    simp only [Esc] at h ⊢
+    by_cases hx : x = '\\'
+    · simp only [hx, if_true] at h ⊢
+      exact ⟨hb y h.1, Esc_mono bad bad' hb rest h.2⟩
+    · simp only [hx, if_false] at h ⊢
+      exact Esc_mono bad bad' hb (y :: rest) h
+
+theorem Esc_flatMap_colon : ∀ e : Str, Esc bad2 e → Esc (fun y => y = '.') (e.flatMap (escD ':'))
+  | [], _ => True.intro
+  | [x], h => by
+    have hx : x ≠ '\\' := h
+    simp only [List.flatMap_cons, List.flatMap_nil, List.append_nil, escD]
+    split
+    · exact Esc_bs _ ':' [] (by decide) True.intro
+    · exact hx
+  | x :: y :: rest, h => by
+    simp only [Esc] at h
+    by_cases hx : x = '\\'
+    · subst hx
+      simp only [if_true] at h
+      have hy1 : y ≠ ':' := by have := h.1; unfold bad2 at this; simp at this; exact this.2
+      have hy2 : y ≠ '.' := by have := h.1; unfold bad2 at this; simp at this; exact this.1
+      have e0 : escD ':' '\\' = ['\\'] := by decide
+      have e1 : escD ':' y = [y] := by simp [escD, hy1]
+      simp only [List.flatMap_cons, e0, e1, List.cons_append, List.nil_append]
+      exact Esc_bs _ y _ (by simp [hy2]) (Esc_flatMap_colon rest h.2)
+    · simp only [if_neg hx] at h
+      have ih := Esc_flatMap_colon (y :: rest) h
+      rw [List.flatMap_cons]
+      by_cases hxc : x = ':'
+      · subst hxc
+        have e1 : escD ':' ':' = ['\\', ':'] := by decide
+        rw [e1]
+        exact Esc_bs _ ':' _ (by decide) ih
+      · have e1 : escD ':' x = [x] := by simp [escD, hxc]
+        rw [e1]
+        exact Esc_cons_ne _ x _ hx ih
+
+/-- `registry.unescape(registry.escape(n)) == n` for every name component -/
+theorem unescapeName_escapeName (n : Str) : unescapeName (escapeName n) = .ok n := by
+  unfold unescapeName
+  rw [escapeName_eq]
+  rw [replace2_escD '.' (by decide) _ (Esc_flatMap_colon _ (Esc_encodeUE n))]
+  rw [replace2_escD ':' (by decide) _ (Esc_mono bad2 _ (by intro y hy; unfold bad2 at hy; simp at hy; simp [hy.2]) _ (Esc_encodeUE n))]
+  exact decodeUE_encodeUE n
+
+
+
+/-- no unescaped dot inside; the Bool is "the character before is a backslash" -/
+def NoSplit : Bool → Str → Prop
+  | _, [] => True
+  | pb, c :: cs => (c = '.' → pb = true) ∧ NoSplit (decide (c = '\\')) cs
+
+theorem noSplit_flatMap_dot (e : Str) : ∀ pb, NoSplit pb (e.flatMap (escD '.')) := by
+  induction e with
+  | nil => intro pb; exact True.intro
+  | cons c cs ih =>
+    intro pb
+    rw [List.flatMap_cons]
+    by_cases hc : c = '.'
+    · subst hc
+      have e1 : escD '.' '.' = ['\\', '.'] := by decide
+      rw [e1]
+      exact ⟨fun hh => absurd hh (by decide), ⟨fun _ => by decide, ih _⟩⟩
+    · have e1 : escD '.' c = [c] := by simp [escD, hc]
+      rw [e1]
+      exact ⟨fun h => absurd h hc, ih _⟩
+
+theorem splitDots_noSplit (w : Str) : ∀ pb, NoSplit pb w → splitDots pb w = [w] := by
+  induction w with
+  | nil => intro pb _; rfl
+  | cons c cs ih =>
+    intro pb h
+    simp only [splitDots]
+    rw [if_neg (by intro hh; have := h.1 hh.1; simp [this] at hh)]
+    rw [ih _ h.2]
+
+/-- the character before the separator is not a backslash -/
+def EndsOk (pb : Bool) (w : Str) : Prop := if w = [] then pb = false else w.getLast? ≠ some '\\'
+
+theorem splitDots_sep (w rest : Str) : ∀ pb, NoSplit pb w → EndsOk pb w →
+    splitDots pb (w ++ '.' :: rest) = w :: splitDots false rest := by
+  induction w with
+  | nil =>
+    intro pb _ he
+    simp only [EndsOk, if_true] at he
+    subst he
+    simp [splitDots]
+  | cons c cs ih =>
+    intro pb h he
+    simp only [List.cons_append, splitDots]
+    rw [if_neg (by intro hh; have := h.1 hh.1; simp [this] at hh)]
+    have he' : EndsOk (decide (c = '\\')) cs := by
+      unfold EndsOk at he ⊢
+      simp only [List.cons_ne_nil, if_false] at he
+      by_cases hcs : cs = []
+      · subst hcs; simp at he ⊢; exact he
+      · simp only [hcs, if_false]
+        cases cs with
+        | nil => exact absurd rfl hcs
+        | cons d ds => rw [List.getLast?_cons_cons] at he; exact he
+    rw [ih _ h.2 he']
+
+theorem getLast_flatMap_escD (d : Char) (s : Str) : (s.flatMap (escD d)).getLast? = s.getLast? := by
+  induction s with
+  | nil => rfl
+  | cons c cs ih =>
+    rw [List.flatMap_cons, List.getLast?_append, ih]
+    cases cs with
+    | nil =>
+      simp only [List.getLast?_nil, Option.none_or]
+      unfold escD; split
+      · rename_i h; subst h; rfl
+      · rfl
+    | cons x xs => rw [List.getLast?_cons_cons]; cases hl : (x :: xs).getLast? with
+      | none => simp at hl
+      | some z => simp
+
+theorem getLast_encodeUE (n : Str) (h : n.getLast? ≠ some '\\') : (encodeUE n).getLast? ≠ some '\\' := by
+  induction n with
+  | nil => simp [encodeUE]
+  | cons c cs ih =>
+    have e : encodeUE (c :: cs) = encChar c ++ encodeUE cs := by simp [encodeUE]
+    rw [e, List.getLast?_append]
+    cases cs with
+    | nil =>
+      have hc : c ≠ '\\' := by intro e; subst e; simp at h
+      obtain ⟨init, z, hz, hzb⟩ := encChar_last c hc
+      simp [encodeUE, hz, hzb]
+    | cons d ds =>
+      rw [List.getLast?_cons_cons] at h
+      have := ih h
+      cases hl : (encodeUE (d :: ds)).getLast? with
+      | none =>
+        exfalso
+        have : encodeUE (d :: ds) ≠ [] := by
+          have e2 : encodeUE (d :: ds) = encChar d ++ encodeUE ds := by simp [encodeUE]
+          rw [e2]
+          obtain hd | hd := Classical.em (d = '\\')
+          · subst hd; simp [encChar]
+          · obtain ⟨init, z, hz, _⟩ := encChar_last d hd; rw [hz]; simp
+        exact this (List.getLast?_eq_none_iff.mp hl)
+      | some z => rw [hl] at this; simpa using this
+
+theorem endsOk_escapeName (n : Str) (h : n.getLast? ≠ some '\\') : EndsOk false (escapeName n) := by
+  unfold EndsOk
+  split
+  · rfl
+  · rw [escapeName_eq, getLast_flatMap_escD, getLast_flatMap_escD]
+    exact getLast_encodeUE n h
+
+theorem splitDots_join (ns : List Str) (hne : ns ≠ []) (h : ∀ n ∈ ns.dropLast, n.getLast? ≠ some '\\') :
+    splitDots false (joinChar '.' (ns.map escapeName)) = ns.map escapeName := by
+  induction ns with
+  | nil => exact absurd rfl hne
+  | cons n rest ih =>
+    cases rest with
+    | nil =>
+      simp only [List.map_cons, List.map_nil, joinChar]
+      have := noSplit_flatMap_dot ((encodeUE n).flatMap (escD ':')) false
+      rw [← escapeName_eq] at this
+      exact splitDots_noSplit _ false this
+    | cons m ms =>
+      simp only [List.map_cons, joinChar]
+      have hn : n.getLast? ≠ some '\\' := h n (by simp [List.dropLast])
+      have hns := noSplit_flatMap_dot ((encodeUE n).flatMap (escD ':')) false
+      rw [← escapeName_eq] at hns
+      rw [splitDots_sep _ _ false hns (endsOk_escapeName n hn)]
+      have := ih (by simp) (fun x hx => h x (by simp [List.dropLast] at hx ⊢; right; exact hx))
+      simp only [List.map_cons] at this
+      rw [this]
+
+theorem resAll_ok (ns : List Str) : resAll (ns.map fun n => Res.ok n) = some ns := by
+  induction ns with
+  | nil => rfl
+  | cons n rest ih => simp [resAll, ih]
+
+theorem splitName_joinName_aux (ns : List Str) (hne : ns ≠ []) (h : ∀ n ∈ ns.dropLast, n.getLast? ≠ some '\\') :
+    splitName (joinName ns) = some ns := by
+  unfold splitName joinName
+  rw [splitDots_join ns hne h, List.map_map]
+  have : (unescapeName ∘ escapeName) = fun n => Res.ok n := by
+    funext n; exact unescapeName_escapeName n
+  rw [this, resAll_ok]
 
 end C15
